@@ -120,3 +120,60 @@ Proof.
   eexists. split; [repeat split; repeat constructor; cbn; lia|]. split; [reflexivity|]. split; [repeat constructor|].
   split; [vm_compute; reflexivity|]. vm_compute. reflexivity.
 Qed.
+
+(* ---- the handle written back with set_row ---- *)
+Lemma cmap_from_same_reps {A B} (v : list (nat * A)) (v' : list (nat * B)) : map fst v = map fst v' -> forall acc, cmap_from acc v = cmap_from acc v'.
+Proof.
+  revert v'; induction v as [|[n a] v IH]; intros [|[n' b] v'] H acc; try discriminate; [reflexivity|].
+  cbn [map fst] in H. inversion H; subst. cbn [cmap_from]. f_equal. apply IH. assumption.
+Qed.
+Lemma width_same_reps {A B} (v : list (nat * A)) (v' : list (nat * B)) : map fst v = map fst v' -> width v = width v'.
+Proof.
+  revert v'; induction v as [|[n a] v IH]; intros [|[n' b] v'] H; try discriminate; [reflexivity|].
+  cbn [map fst] in H. inversion H; subst. unfold width in *. cbn [expand]. rewrite !app_length, !repeat_length. f_equal. apply IH. assumption.
+Qed.
+
+(* written back, the edit through a live handle IS the Table-level row edit (hence within the plain-grid contract,
+   edit_row_refines) exactly when the handle is a fresh row beyond the table or the row is stored unrepeated *)
+Theorem live_row_back_is_table_edit y os t : WF t -> 0 <= y -> Forall live_ok os ->
+  (theight t <= y \/ exists r0, row_at y t = Some (1%nat, r0)) -> t_live_row_back y os t = t_edit_row y os t.
+Proof.
+  intros [[Hr Hc] Hcw] Hy Hok Hcase. unfold t_live_row_back.
+  destruct (Z.leb_spec (theight t) y) as [Hout|Hin]; [reflexivity|].
+  destruct Hcase as [Hc1|(r0 & Hra)]; [lia|].
+  assert (Hp : 0 <= y < Z.of_nat (width (rows t))) by (unfold theight in Hin; lia).
+  destruct (locate _ (rows t) y Hr Hp) as (i & n & r & Hf & Hnth & Hi & Hbef & Hcur & Hrange). cbv zeta in *.
+  set (L := length (expand (firstn i (rows t)))) in *.
+  unfold row_at in Hra. rewrite Hf, Hnth in Hra. inversion Hra; subst n r. clear Hra.
+  unfold t_live_row. destruct (Z.leb_spec (theight t) y); [lia|]. rewrite Hf, Hnth.
+  assert (Hwr : rwf r0). { unfold cwf in Hcw. rewrite Forall_forall in Hcw. apply (Hcw (1%nat, r0)). eapply nth_error_In; eauto. }
+  assert (Hrok : Forall rop_ok os) by (eapply Forall_impl; [|exact Hok]; apply live_ok_rop_ok).
+  destruct (rowx_run_refines os r0 Hwr Hrok) as (r' & Hrun & _ & _). rewrite Hrun.
+  set (rows1 := firstn i (rows t) ++ (1%nat, r') :: skipn (S i) (rows t)).
+  pose proof (firstn_skipn_nth_error (rows t) i (1%nat, r0) Hnth) as Hv.
+  assert (Hreps : map fst rows1 = map fst (rows t)).
+  { unfold rows1. rewrite Hv at 3. rewrite !map_app. reflexivity. }
+  assert (Hcm : cmap rows1 = cmap (rows t)) by (apply cmap_from_same_reps, Hreps).
+  assert (Hnth1 : nth_error rows1 i = Some (1%nat, r')).
+  { unfold rows1. rewrite nth_error_app2 by (rewrite firstn_length; lia). rewrite firstn_length. replace (i - Nat.min i (length (rows t)))%nat with 0%nat by lia. reflexivity. }
+  unfold row_at. cbn [rows]. fold rows1. rewrite Hcm, Hf, Hnth1.
+  (* the Table-level edit *)
+  unfold t_edit_row, base_row. destruct (Z.leb_spec (theight t) y); [lia|]. unfold row_at. rewrite Hf, Hnth, Hrun.
+  (* both set_row calls are in range and replace the same one-position run *)
+  assert (Hh1 : theight {| cols := cols t; rows := rows1 |} = theight t).
+  { unfold theight. cbn [rows]. now rewrite (width_same_reps rows1 (rows t) Hreps). }
+  unfold set_row. cbn [rows cols]. rewrite !Hh1.
+  destruct (Z.eqb_spec (y - theight t) 0); [lia|]. destruct (Z.ltb_spec 0 (y - theight t)); [lia|].
+  assert (Hset : set_item y (1%nat, r') rows1 (cmap rows1) = set_item y (1%nat, r') (rows t) (cmap (rows t))).
+  { unfold set_item. rewrite Hcm, Hf, Hnth1, Hnth, Hbef, Hcur. cbn [fst].
+    assert (HyL : y = Z.of_nat L) by lia.
+    replace (y - (-1 + Z.of_nat L + 1)) with 0 by lia.
+    replace (-1 + Z.of_nat L + Z.of_nat 1 - (-1 + Z.of_nat L) - 0) with 1 by lia.
+    change (Z.to_nat 1) with 1%nat. cbn [drop_pos Nat.leb Nat.sub]. change (1 <=? 0) with false. cbv iota.
+    assert (Hd0 : forall (v : list (nat * rowx)), drop_pos 0 v = v) by (intros v; destruct v; reflexivity).
+    rewrite !Hd0.
+    unfold rows1. rewrite firstn_app_exact by (rewrite firstn_length; lia).
+    replace (S i) with (length (firstn i (rows t)) + 1)%nat at 1 by (rewrite firstn_length; lia).
+    rewrite skipn_app_2. reflexivity. }
+  rewrite Hset. destruct (set_item y (1%nat, r') (rows t) (cmap (rows t))); reflexivity.
+Qed.
